@@ -7,7 +7,7 @@ for c in m['checks']:
     try:
         e=json.load(open(f)); jsonschema.validate(e,es)
         cov=e['coverage']
-        ok = cov['obligations']==cov['discharged'] and cov['obligations']>0 and e.get('violations',0)==0
+        ok = cov['obligations']==cov['discharged'] and e.get('violations',0)==0 and (cov['obligations']>0 if e['level']=='proof' else (len(cov.get('bounded',[]))>0 and all(b['status']=='discharged' for b in cov['bounded'])))
         print(c['property_id'], 'valid', cov['obligations'], cov['discharged'], e['violations'], 'OK' if ok else 'BAD')
     except Exception as ex:
         print(c['property_id'], 'INVALID', str(ex)[:200])
